@@ -8,11 +8,12 @@ from .simnet import unwrap
 from wormhole import transit
 
 
-def make_pair(world, key=None, relay=False, listen_s=True, listen_r=True, key_r=None):
+def make_pair(world, key=None, relay=False, listen_s=True, listen_r=True, key_r=None, relay_r=None):
+    """relay_r: the receiver's own relay hint when it differs from the sender's"""
     r = world.reactor
     key = key or world.work_rng.randbytes(32)
     s = transit.TransitSender(RELAY_HINT if relay else None, no_listen=not listen_s, reactor=r)
-    rc = transit.TransitReceiver(RELAY_HINT if relay else None, no_listen=not listen_r, reactor=r)
+    rc = transit.TransitReceiver((relay_r or RELAY_HINT) if relay else None, no_listen=not listen_r, reactor=r)
     s.set_transit_key(key)
     rc.set_transit_key(key_r or key)
     return s, rc, key
